@@ -205,6 +205,13 @@ def lexmodel_devnames():
 def replay(pid, path):
     import json
     rec = json.load(open(path))
+    if rec.get("kind", "").startswith("pipeline_no_answer") and rec.get("text") is not None:
+        o = observe.run_file(rec["text"], rec.get("file", "test.c"))
+        print("outcome:", "fatal" if o["fatal"] else ("verdict " + str(o["status"]) if o["exc"] is None else o["exc"]))
+        if o["exc"] is not None:
+            print(f"VIOLATION property={pid} replay={path}")
+            return 1
+        return 0
     text = rec.get("input")
     if text is None and rec.get("file"):
         text = open(rec["file"]).read()
